@@ -312,6 +312,7 @@ class SockObj(object):
         if lim is not None and sum(1 for o in k.fds.values() if o.host == self.host) >= lim:
             # RLIMIT_NOFILE of this process is exhausted: accept fails, the connection stays in the backlog
             s.count("fault:accept-emfile")
+            s.sleep(0.001)          # a failing system call still takes time: a caller that retries at once must not freeze the virtual clock
             raise _err(E.EMFILE)
         nd = d.acceptq.pop(0)
         so = SockObj(_desc=nd, _kernel=k)
